@@ -344,14 +344,20 @@ sexp sexp_json_read (sexp ctx, sexp self, sexp_sint_t n, sexp in) {
 sexp json_write (sexp ctx, sexp self, sexp obj, sexp out);
 
 #define FLONUM_SIGNIFICANT_DIGITS 10
+#define FLONUM_MAX_DIGITS 17
 #define FLONUM_EXP_MAX_DIGITS 3
 sexp json_write_flonum(sexp ctx, sexp self, const sexp obj, sexp out) {
   if (sexp_infp(obj) || sexp_nanp(obj)) {
     return sexp_json_write_exception(ctx, self, "unable to encode number", obj);
   }
   /* Extra space for signs (x2), dot, E and \0 */
-  char cout[FLONUM_SIGNIFICANT_DIGITS + FLONUM_EXP_MAX_DIGITS + 5];
-  snprintf(cout, sizeof(cout), "%.*G", FLONUM_SIGNIFICANT_DIGITS, sexp_flonum_value(obj));
+  char cout[FLONUM_MAX_DIGITS + FLONUM_EXP_MAX_DIGITS + 5];
+  int digits;
+  /* the shortest of 10..17 significant digits that reads back as the same double */
+  for (digits = FLONUM_SIGNIFICANT_DIGITS; digits <= FLONUM_MAX_DIGITS; digits++) {
+    snprintf(cout, sizeof(cout), "%.*G", digits, sexp_flonum_value(obj));
+    if (strtod(cout, NULL) == sexp_flonum_value(obj)) break;
+  }
   sexp_write_string(ctx, cout, out);
   return SEXP_VOID;
 }
@@ -492,8 +498,7 @@ sexp json_write (sexp ctx, sexp self, const sexp obj, sexp out) {
     res = json_write_flonum(ctx, self, obj, out);
 #if SEXP_USE_BIGNUMS
   } else if (sexp_bignump(obj)) {
-    res = sexp_make_flonum(ctx, sexp_bignum_to_double(obj));
-    res = json_write_flonum(ctx, self, res, out);
+    res = sexp_write(ctx, obj, out);   /* exact integers are written exactly */
 #endif
   } else if (obj == SEXP_FALSE) {
     sexp_write_string(ctx, "false", out);
